@@ -7,6 +7,8 @@ mkdir -p .work evidence
 ./tools/build_harness.sh dev rel dev-sep rel-sep
 # nightly variant is only needed by C19; build it opportunistically
 ./tools/build_harness.sh nightly-rel-sep || echo "nightly harness build failed (C19 will report it)" >&2
+# Python extension (C20): build from a scratch copy of /repo; also yields the enum files build.rs regenerates
+python3 tools/py_ext.py build || echo "python extension build failed (C20 will report it)" >&2
 python3 - <<'PY'
 import sys
 sys.path.insert(0, "/verif/tools")
